@@ -15,7 +15,10 @@ settings; every resolved option is compared with Model.Options.run_home on the g
 Search (independent of Coq): a plain Python restatement of the property
     value = command line ?? coerce(type of default, configuration file) ?? default
 is compared with parse(), (a) systematically for every option x every combination of layers and
-(b) on the random cases; the store location is compared across all subcommands."""
+(b) on the random cases; the store location is compared across all subcommands.
+Command wiring: the real `jug <subcommand>` entry point (jug.jug.main) is run in fresh interpreters for every command form x
+jugdir spelling x {command line, jugrc} with backends.select recording its argument: all commands must hand it the same
+string for the same options (what parse() resolved), whether they open the store themselves or jug.main does."""
 import atexit
 import collections
 import contextlib
@@ -52,7 +55,8 @@ EVIDENCE = dict(
          'file in a fresh interpreter; discovery-systematic = every subset of the candidate files x command line with/without overrides.',
     explanation='Coq theorems over the option-table model (general in the table; side conditions decided for the table '
                 'generated from the source) + differential evaluation of the model against jug.options.parse and '
-                'backends.select + direct search with a Python restatement of the precedence rule',
+                'backends.select + direct search with a Python restatement of the precedence rule + the string every real command '
+                'hands to backends.select (jug.jug.main in fresh interpreters), which must be the same for all commands',
 )
 
 MISSING = object()
@@ -884,6 +888,130 @@ IMPORTS = 'From JugV Require Import Model.Options Gen.OptionTable.\nLocal Open S
 CASE_TYPE = 'cmdline * (config + home) * string * outcome'
 
 
+# ----------------------------------------------------------------------------- which string each COMMAND hands to backends.select
+WIRING_CHILD = r"""
+import sys, json, os
+job = json.loads(sys.stdin.read())
+sys.path.insert(0, job['repo'])
+import jug.backends as B
+from jug.jug import main
+orig = B.select
+seen = []
+def sel(jugdir, *a, **k):
+    seen.append(jugdir)
+    return orig('dict_store')
+B.select = sel
+for m in list(sys.modules.values()):
+    if m is not None and getattr(m, '__name__', '').split('.')[0] == 'jug':
+        for k, v in list(vars(m).items()):
+            if v is orig:
+                setattr(m, k, sel)
+err = None
+devnull = open(os.devnull, 'w')
+out, sys.stdout, sys.stderr = sys.stdout, devnull, devnull
+try:
+    main(['jug'] + job['argv'])
+except BaseException as e:
+    err = type(e).__name__
+out.write('RESULT ' + json.dumps({'select': [x if isinstance(x, str) else repr(x) for x in seen], 'err': err}) + '\n')
+out.flush()
+os._exit(0)
+"""
+WIRING_SUBCOMMANDS = [('execute', []), ('status', []), ('check', []), ('sleep-until', []), ('cleanup', []),
+                      ('cleanup', ['--locks-only']), ('invalidate', ['--target', 'nothing']), ('pack', []), ('graph', []),
+                      ('status', ['--cache'])]
+WIRING_TEMPLATES = ['wdata', '~/wstore', 'w.%(jugfile)s.d', '~', './w//x', 'dict_store:~/w.pkl', '$HOME/w', 'w/../w2']
+
+
+def command_wiring(ck):
+    """options.parse resolves ONE jugdir string; whichever command runs must open the store backends.select picks for THAT
+    string - execute/status (which open the store themselves) and the commands jug.main opens it for alike.  The real
+    `jug <sub>` entry point is run in a fresh interpreter per case (scratch HOME and cwd, jugfile without tasks) with
+    backends.select recording its argument (an in-memory store is handed back)."""
+    with jugrun.scratch_dir('jugv_c20w') as root:
+        return _command_wiring(ck, root)
+
+
+def _command_wiring(ck, root, only=None):
+    home = os.path.join(root, 'home')
+    os.makedirs(home)
+    with open(os.path.join(root, 'wj.py'), 'w') as f:
+        f.write('x = 1\n')
+    jobs = []
+    for tpl in WIRING_TEMPLATES:
+        for where in ('cli', 'rc'):
+            for sub, extra in WIRING_SUBCOMMANDS:
+                jobs.append((tpl, where, sub, extra))
+    if only is not None:
+        jobs = [only]
+    rcdir = os.path.join(root, 'homes')
+    for n, tpl in enumerate(WIRING_TEMPLATES):           # written before any child starts
+        os.makedirs(os.path.join(rcdir, '%d' % n, '.config', 'jug'))
+        with open(os.path.join(rcdir, '%d' % n, '.config', 'jug', 'jugrc'), 'w') as f:
+            f.write('[main]\njugdir = %s\n' % tpl)
+
+    def one(job):
+        tpl, where, sub, extra = job
+        h = home
+        argv = [sub, 'wj.py'] + extra + ['--will-cite']
+        if where == 'cli':
+            argv.append('--jugdir=' + tpl)
+        else:
+            h = os.path.join(rcdir, '%d' % WIRING_TEMPLATES.index(tpl))
+        env = dict(os.environ)
+        env['HOME'] = h
+        env.pop('JUG_MAX_TASKS', None)
+        last = 'not run'
+        for _ in range(2):
+            try:
+                p = subprocess.run([sys.executable, '-c', WIRING_CHILD], input=json.dumps({'repo': core.REPO, 'argv': argv}),
+                                   env=env, stdout=subprocess.PIPE, stderr=subprocess.PIPE, universal_newlines=True,
+                                   timeout=120, cwd=root)
+            except subprocess.TimeoutExpired:
+                last = 'timeout'
+                continue
+            for line in p.stdout.splitlines():
+                if line.startswith('RESULT '):
+                    return json.loads(line[7:])
+            last = 'exit %s: %s' % (p.returncode, p.stderr.strip()[-300:])
+        return last
+
+    with ThreadPoolExecutor(max_workers=8) as ex:
+        results = list(ex.map(one, jobs))
+    opened, failed = 0, []
+    groups = collections.OrderedDict()
+    for (tpl, where, sub, extra), r in zip(jobs, results):
+        if not isinstance(r, dict):
+            failed.append('%s %s: %s' % (sub, tpl, r))
+            continue
+        ck.count('wiring:%s:%s' % (where, 'store opened' if r['select'] else 'no store opened (%s)' % r['err']))
+        if not r['select']:
+            continue
+        opened += 1
+        ck.distinct(('wiring', tpl, where, sub, tuple(extra)), True)
+        groups.setdefault((tpl, where), []).append((sub, extra, r['select']))
+    for (tpl, where), rows in groups.items():
+        # the property: every command the same way.  The reference is what most commands do (what parse() resolved, on the
+        # unchanged code: py_expand); a command that hands backends.select anything else opens another store.
+        seen = collections.Counter(x for _, _, sel in rows for x in set(sel))
+        ref = py_expand(tpl, 'wj', 'DATE') if only is not None else seen.most_common(1)[0][0]
+        for sub, extra, sel in rows:
+            if any(x != ref for x in sel):
+                ck.violation({'kind': 'impl-violation',
+                              'what': 'a command opens another store than the other commands do for the same options',
+                              'subcommand': sub, 'extra_args': extra, 'jugdir_given': tpl, 'given_in': where,
+                              'argument_of_backends_select_in_most_commands': ref,
+                              'expected_argument_of_backends_select': py_expand(tpl, 'wj', 'DATE'),
+                              'observed_arguments_of_backends_select': sel, 'wiring': True})
+    if only is not None:
+        return results[0]
+    if failed:
+        ck.notes.append('C20 command wiring: %d of %d children did not report: %s' % (len(failed), len(jobs), '; '.join(failed[:3])))
+    if len(failed) * 10 > len(jobs) or opened < len(jobs) // 2:
+        ck.broken.append('C20 command wiring: only %d of %d commands opened a store (%d children did not report)'
+                         % (opened, len(jobs), len(failed)))
+
+
 def setup(ck, lenient=False):
     tab = TR.table(lenient=lenient)
     cmdapi._commands.load_commands()
@@ -1120,6 +1248,9 @@ def run(ck):
             ck.violation({'kind': 'correspondence', 'what': 'Model.Options.run and jug.options.parse disagree (%s)' % metas[i]['family'],
                           'case': metas[i], 'coq_case': lits[i], 'obs_keys': keys})
 
+    # ------------------------------------------------------------ the store each command opens
+    command_wiring(ck)
+
     # ------------------------------------------------------------ backends.select vs backend_of
     strs = sorted(set([d for d, _ in loc_cases] + TPL_HEADS + ['', 'jugdata', 'dict_store:x.pkl', 'dict_storex', 'redis:',
                                                                  'file_keepalive:/a/b', 'redis://localhost:6379/0', 'a/redis:', 'dict_store:',
@@ -1146,6 +1277,19 @@ def run(ck):
 
 def replay(obj):
     """Re-execute one recorded command line + configuration file against /repo."""
+    if obj.get('wiring'):
+        class _Ck:
+            broken, notes = [], []
+            def count(self, *a): pass
+            def distinct(self, *a): pass
+            def violation(self, v): self.v = v
+        c = _Ck()
+        with jugrun.scratch_dir('jugv_c20w') as root:
+            r = _command_wiring(c, root, only=(obj['jugdir_given'], obj['given_in'], obj['subcommand'], obj['extra_args']))
+        print('jug %s wj.py %s  with jugdir %r given in %s' % (obj['subcommand'], ' '.join(obj['extra_args']), obj['jugdir_given'], obj['given_in']))
+        print('expected argument of backends.select:', repr(obj['expected_argument_of_backends_select']))
+        print('observed                            :', r['select'] if isinstance(r, dict) else r)
+        return 1 if hasattr(c, 'v') or not isinstance(r, dict) else 0
     if 'args' not in obj or ('config_text' not in obj and 'home' not in obj):
         print('replay: nothing executable in this file:', obj.get('kind'), obj.get('no_longer_checks', ''))
         return 2
